@@ -997,7 +997,7 @@ PROPS = {
     "C14": {"modules": ["MiniVecProof.Props.C14"],
             "cases": lambda tier, seed: [("debug", corpus("debug", "C14") + raw_cases(tier, seed, "debug") + raw_after_ops(tier, "debug")), ("release", raw_cases(tier, seed, "release") + raw_after_ops(tier, "release"))],
             "owned_oracles": ["O rawparts", "O cap", "O ledger", "X signal", "O vec-mismatch", "rawparts-null", "O alloc"], "owned_diffs": ["ub", "result", "contents", "crash", "panic"]},
-    "C17": {"modules": ["MiniVecProof.Props.C17", "MiniVecProof.Props.C01Histories", "MiniVecProof.Props.C17RemoveItem", "MiniVecProof.Props.C10DrainFilter", "MiniVecProof.Props.C10Splice", "MiniVecProof.Props.C01Loops"],
+    "C17": {"modules": ["MiniVecProof.Props.C17", "MiniVecProof.Props.C01Histories", "MiniVecProof.Props.C17RemoveItem", "MiniVecProof.Props.C17DedupExact", "MiniVecProof.Props.C10DrainFilter", "MiniVecProof.Props.C10Splice", "MiniVecProof.Props.C01Loops"],
             "cases": lambda tier, seed: [("debug", corpus("debug", "C17") + hostile_cases(tier, seed, "debug") + huge_hint_cases("debug") + extend_ref_cases("debug") + clone_glue_cases("debug") + lying_hint_cases("debug") + compare_prefix_cases("debug")),
                                          ("release", huge_hint_cases("release") + extend_ref_cases("release"))],
             "owned_oracles": ["O ledger", "O alloc", "X signal", "hint-panic", "lost-on-panic", "O vec-mismatch"], "owned_diffs": ["own", "contents", "result", "alloc", "ub", "crash"],
